@@ -192,12 +192,17 @@ func c04VacuumOrder(c *Ctx) {
 	}
 	// inside DeleteHistoricVersions: all node deletions complete before any version deletion
 	persistF := mustField(c, "kv", "DB", "persist")
+	rootF4 := mustField(c, "kv", "DB", "root")
 	var nodeDels, verDels []ssa.CallInstruction
 	for _, d := range deleteCalls(dh) {
 		t := deleteTargetOf(d)
-		if t != nil && pathHas(t.PrefixThrough, persistF) {
+		switch {
+		case t != nil && pathHas(t.PrefixThrough, persistF):
 			nodeDels = append(nodeDels, d)
-		} else {
+		case t != nil && rootF4 != nil && pathHas(t.PrefixThrough, rootF4) && retiredListElement(dh, t.KeySuffix):
+			// un-listing a retired version from current/ is not the deletion of its record (the
+			// object under merged/): it has to come first, see C09.gc-retires-first
+		default:
 			verDels = append(verDels, d)
 		}
 	}
